@@ -510,8 +510,16 @@ func runCheck(prop, tier string, seed int64, only string, writeEvidence bool) in
 		}
 		sort.Strings(kf)
 		cov["known_findings_seen"] = kf
-		if samples == nil {
-			cov["samples"] = []interface{}{}
+		if len(samples) == 0 {
+			// no case carried a written-out sample (e.g. every sampled case was violated): fall back to the case records themselves
+			fb := []interface{}{}
+			for i, r := range all {
+				if i >= 2 {
+					break
+				}
+				fb = append(fb, map[string]interface{}{"case": r.Case, "name": r.Name, "verdict": r.Verdict, "observed": r.Stats})
+			}
+			cov["samples"] = fb
 		}
 		ev := map[string]interface{}{
 			"property_id": prop, "tier": tier, "seed": seed, "level": p.Level, "coverage": cov,
